@@ -78,6 +78,10 @@ func (c *reCompiler) addPattern(p *Pattern, rule *Rule) (int, error) {
 	c.out[accept].rule = rule
 	transitiveClosure(c.out[ret:])
 
+	if accept == ret {
+		// The pattern produced no instructions at all, e.g. () or a{0}.
+		c.errorf("`%v` accepts empty text", p.Name)
+	}
 	for _, delta := range c.out[ret].links {
 		dst := ret + delta
 		if c.out[dst].rule != nil {
